@@ -1,6 +1,7 @@
 /- World requests of PROTOCOL.md answered by the model (`AutosarVerif/Model/World*.lean`). -/
 import AutosarVerif.Model.WorldQuery
 import AutosarVerif.Model.Sort
+import AutosarVerif.Model.Compat
 import Driver.Proto
 
 namespace AV.WDriver
@@ -117,6 +118,12 @@ def step (S : Spec) (V : Env) (validVer : Nat â†’ Bool) (rootAttrs : List (Nat Ã
     | some p, some n => some (w, qRange S V w p n) | _, _ => some (w, "bad-op")
   | ["valid", p] => (E p).map fun p => (w, qValid S V w p)
   | ["dump"] => some (w, dumpWorld w)
+  | ["compat", f, v] => match parseHandle 'f' f, v.toNat? with
+    | some f, some v => if validVer v then some (w, qCompat S w f v) else some (w, "bad-op")
+    | _, _ => some (w, "bad-op")
+  | ["setver", f, v] => match parseHandle 'f' f, v.toNat? with
+    | some f, some v => if validVer v then some (sh (opSetVersion S w f v)) else some (w, "bad-op")
+    | _, _ => some (w, "bad-op")
   | _ => none
 
 end AV.WDriver
